@@ -107,3 +107,31 @@ Proof. exact (@get_multibyte_complete). Qed.
 Check C03_multibyte_any_encoding :
   forall (bs : list N) (v p0 : N), mb_decodes bs v -> rd get_multibyte p0 (v, bs) bs.
 Print Assumptions C03_multibyte_any_encoding.
+
+From LZ Require Import Model.Lzma2 Model.Xz Format.Lzma2Fmt Proofs.IoLemmas Proofs.XzSound Proofs.XzExact.
+
+(* C03 in one statement (with C02): every byte string that is a well-formed supported .xz file - check None/CRC32/CRC64, any number of blocks, each block a legal header with one LZMA2 filter, optional true size fields, any padding and multibyte encodings, payload = reference-serialised well-formed chunk sequence - decodes, for every reader fragmentation and non-failing sink, to exactly the concatenation of the blocks' contents   [proved as xz_wellformed_decode_exact in Proofs/XzExact.v] *)
+Theorem C03_xz_wellformed_decode_exact :
+  forall (crc32 crc64 : list N -> N) (file : xz_file) (bytes : list N) (fuel : positive) (w : io),
+  xz_file_bytes crc32 crc64 file bytes ->
+  xz_fuel_ok fuel file ->
+  FaultFree (i_src w) ->
+  s_rest (i_src w) = bytes ->
+  k_wfail (i_snk w) = None ->
+  exists w' : io,
+    xz_decompress crc32 crc64 fuel w = (Done tt, w') /\
+    snk_bytes (i_snk w') = snk_bytes (i_snk w) ++ xz_contents file /\
+    s_rest (i_src w') = [] /\ s_pos (i_src w') = s_pos (i_src w) + nlen bytes.
+Proof. exact (@xz_wellformed_decode_exact). Qed.
+Check C03_xz_wellformed_decode_exact :
+  forall (crc32 crc64 : list N -> N) (file : xz_file) (bytes : list N) (fuel : positive) (w : io),
+  xz_file_bytes crc32 crc64 file bytes ->
+  xz_fuel_ok fuel file ->
+  FaultFree (i_src w) ->
+  s_rest (i_src w) = bytes ->
+  k_wfail (i_snk w) = None ->
+  exists w' : io,
+    xz_decompress crc32 crc64 fuel w = (Done tt, w') /\
+    snk_bytes (i_snk w') = snk_bytes (i_snk w) ++ xz_contents file /\
+    s_rest (i_src w') = [] /\ s_pos (i_src w') = s_pos (i_src w) + nlen bytes.
+Print Assumptions C03_xz_wellformed_decode_exact.
